@@ -148,7 +148,7 @@ func realScanWith(ctx context.Context, hasher hash.Hash, root string, cfg config
 	go func() {
 		var o scanOut
 		o.snap, o.cache, o.icache, o.err = core.Scan(ctx, root, baseline, recheck,
-			hasher, cache, &tableIgnorer{}, icache, behavior.ProbeMode_ProbeModeProbe,
+			hasher, cache, activeIgnorer(), icache, behavior.ProbeMode_ProbeModeProbe,
 			symModes[cfg.Sym], permModes[cfg.Perm])
 		ch <- o
 	}()
@@ -666,9 +666,18 @@ func run(c *vlib.Ctx) error {
 		for i := 0; i < n; i++ {
 			c13Case(c, subSeed(c.Seed, 1_000_000+i), -1, abortKindFor(i, 18))
 		}
+		// accelerated-scan histories under Docker-style ignores
+		for i, m := 0, argInt(c, "docker", 6); i < m; i++ {
+			dockerCase(c, subSeed(c.Seed, 3_000_000+i), -1)
+		}
 		// growth: the same statement on the real local endpoint in recursive-watch mode
 		for i, m := 0, argInt(c, "endpoints", 8); i < m; i++ {
 			endpointCase(c, subSeed(c.Seed, 2_000_000+i), -1)
+		}
+	case "C15":
+		// extra run of C15: only the Docker-syntax histories (accelerated = cold; C15's own check ties cold to moby)
+		for i, m := 0, argInt(c, "docker", 30); i < m; i++ {
+			dockerCase(c, subSeed(c.Seed, 3_000_000+i), -1)
 		}
 	default:
 		return fmt.Errorf("scan driver does not know property %s", c.Prop)
@@ -689,8 +698,12 @@ func replay(c *vlib.Ctx) error {
 	case "C12":
 		ak, _ := in["abort"].(string)
 		c12Case(c, num("cseed"), int(num("cfg")), ak)
+	case "C15":
+		dockerCase(c, num("cseed"), int(num("step")))
 	case "C13":
-		if k, _ := in["kind"].(string); k == "endpoint" {
+		if k, _ := in["kind"].(string); k == "docker" {
+			dockerCase(c, num("cseed"), int(num("step")))
+		} else if k == "endpoint" {
 			endpointCase(c, num("cseed"), int(num("step")))
 		} else {
 			ak, _ := in["abort"].(string)
